@@ -153,6 +153,16 @@ func init() {
 		}
 		return mk("c14-life", seeds, cs, n, 1, backupAlphabet(lifeAlphabet(2, lifeBodies, nil, maxTx)), nil)
 	}
+	// backups through a reader held across FAILED commits (every single I/O failure of every commit) and what follows
+	// them: the physical rollback must leave the pages of the reader's version - incl. its freelist page, which only
+	// a backup reads - out of the allocator's reach
+	hx.Registry["c14-fault"] = func(tier string) []*hx.Scope {
+		scs := mkC08w("c14-fault", 1, 1<<20, backupAlphabet)(tier)
+		for _, s := range scs {
+			s.Boundary = nil
+		}
+		return scs
+	}
 }
 
 // C14: hot backups are complete, valid snapshots.
@@ -164,7 +174,7 @@ func C14(tier string) int {
 		Assumptions: []string{"the copy reads the file through the descriptor; pages of the reader's version are protected by the reader registration (C02/C06)"},
 		Quick:       60 * time.Second, Thorough: 20 * time.Minute,
 		Extra: func(tier string, cov map[string]interface{}) []string {
-			v := subHX("C14", []string{"c14-life"}, tier, cov, 60*time.Second, 15*time.Minute)
+			v := subHX("C14", []string{"c14-life", "c14-fault"}, tier, cov, 60*time.Second, 15*time.Minute)
 			return append(v, replacedPath(tier, cov)...)
 		},
 	}, tier)
